@@ -41,7 +41,8 @@ func (prop) Budget(tier string) int {
 
 func (prop) Describe() kernel.Description {
 	return kernel.Description{
-		Rule: "one run = one CSV text (structured rows with plain / empty / quoted / embedded separator, newline, CRLF, doubled quote / leading space / " +
+		Rule: "Dimensions added with the seed waves: a WriterTo that streams through one recycled scratch buffer and fails with io.EOF-flavoured errors; record iterators that move on to the next set when asked again after io.EOF; separator / comment / fields-per-record set on the caller's own *csv.Reader / *csv.Writer; overlapping Consume calls and rows kept from an earlier page. " +
+			"one run = one CSV text (structured rows with plain / empty / quoted / embedded separator, newline, CRLF, doubled quote / leading space / " +
 			"bare quote / unterminated quote / text after the closing quote / comment-character fields, blank and comment lines, ragged rows, LF or CRLF, " +
 			"with or without final newline; or a raw sequence over an awkward alphabet; or a 4-9 KB table that crosses the 4096-byte buffers) × one option set " +
 			"(reader comma, comment, lazy quotes, trim leading space, fields per record 0/-1/n, record reuse; writer comma, CRLF; skipped lines 0..records+2; " +
